@@ -153,6 +153,12 @@ CASES = [
     ("same", "S4r the whole refactor notes/refactors/S4.diff (raise self._bad_inputs_error(inputs) staticmethod, "
              "_get_is_single_point, _get_last_point_from_start, _in_bounds_or_none)",
      [("PATCH", "/verif/notes/refactors/S4.diff")]),
+    ("same", "T4r the whole refactor notes/refactors/T4.diff (`1 == self._repetitions`, De Morgan, conditional "
+             "expressions, `while True` + combined break test in __iter__ / get_first_after, `i == index`)",
+     [("PATCH", "/verif/notes/refactors/T4.diff")]),
+    ("break", "N4 T4 with the literal-left test changed: `2 == self._repetitions` in __init__", [
+        ("PATCH", "/verif/notes/refactors/T4.diff"),
+        ("""1 == self._repetitions""", """2 == self._repetitions""")]),
     ("break", "N1 `floor` rebound at module level (def floor(x): return int(x)) - not math.floor any more", [
         ("""from math import floor
 """, """
